@@ -21,12 +21,13 @@ BOUNDS = {
     "thorough": {"components": "1 x <=8, 2 x <=5, 3 x <=3 chars, every 8-bit code point", "bases": ["/r", "r", "", "/", "/r/s", ".", "r/..", "/r/"]},
 }
 STUBS = [
+    "fs_access: os.path.isfile is replaced in the symbolic AND the native run by a recorder that answers False (no real file is touched)",
     "posixpath.normpath (C accelerator posix._path_normpath) -> the pure-Python normpath from the same stdlib file, extracted by AST; differential test against the C function at start-up and native per-path replay",
     "os.fspath -> identity on str",
     "unicodedata.normalize('NFKD', s) -> identity (ASCII input only)",
 ]
 ASSUMPTIONS = ["POSIX path semantics (os.sep == '/', no altsep)", "secure_filename input is ASCII"]
-OUTSIDE = ["send_from_directory / SharedDataMiddleware end-to-end (filesystem)", "Windows separators", "non-ASCII filenames (unicodedata, C)", "longer components"]
+OUTSIDE = ["what send_from_directory / SharedDataMiddleware do after a file was found (send_file, openers, package loader)", "Windows separators", "non-ASCII filenames (unicodedata, C)", "longer components"]
 
 
 def _py_normpath_node():
@@ -117,6 +118,44 @@ def body_safe_join(I, X, base="/r", lens=(3,)):
     return ok, {"result": res, "norm": nr}
 
 
+def body_fs_access(I, X, via="shared_data", n=3, prefix="/"):
+    """end to end: whatever untrusted path reaches SharedDataMiddleware or
+    send_from_directory, every path they ask the filesystem about lies inside the exported /
+    base directory.  os.path.isfile is replaced (in both the symbolic and the native run) by a
+    recorder that answers False, so no real file is touched"""
+    from werkzeug.exceptions import NotFound
+
+    seen = []
+
+    def rec(p):
+        seen.append(p)
+        return False
+
+    tail = X.str("tail", n, minlen=n, maxcp=0x7F)
+    saved = os.path.isfile
+    os.path.isfile = rec
+    try:
+        if via == "shared_data":
+            from werkzeug.middleware.shared_data import SharedDataMiddleware
+
+            mw = SharedDataMiddleware(lambda e, s: [b"app"], {"/static": "/srv/root"})
+            environ = {"REQUEST_METHOD": "GET", "PATH_INFO": pconcat("/static", prefix, tail), "wsgi.url_scheme": "http", "SERVER_NAME": "s", "SERVER_PORT": "80"}
+            I.call(mw.__call__, (environ, lambda *a, **k: None))
+        else:
+            from werkzeug.utils import send_from_directory
+
+            try:
+                I.call(send_from_directory, ("/srv/root", pconcat(prefix.lstrip("/"), tail), {"REQUEST_METHOD": "GET"}))
+            except NotFound:
+                pass
+    finally:
+        os.path.isfile = saved
+    ok = True
+    for p in seen:
+        ok = pand(ok, inside("/srv/root", norm(I, X, p)))
+    return ok, {"asked": list(seen)}
+
+
 def body_secure_filename(I, X, n=3):
     from werkzeug.utils import secure_filename
 
@@ -149,6 +188,11 @@ def obligations(tier, seed):
                         "params": {"base": base, "lens": list(lens)},
                         "opts": {"budget_s": 900, "ctx": {"max_cp": 0xFF}},
                         "witness": lens == (3,) and base == "/r"})
+    for via in ("shared_data", "send_from_directory"):
+        for prefix in ("/", "//", "/a/"):
+            for n in (range(0, 5) if quick else range(0, 7)):
+                out.append({"name": f"fs_access[{via},prefix={prefix!r},n={n}]", "body": "body_fs_access", "params": {"via": via, "n": n, "prefix": prefix},
+                            "opts": {"budget_s": 900, "ctx": {"max_cp": 0x7F}}})
     for n in (range(0, 5) if quick else range(0, 6)):
         out.append({"name": f"secure_filename[n={n}]", "body": "body_secure_filename", "params": {"n": n},
                     "opts": {"budget_s": 900, "ctx": {"max_cp": 0x7F}}, "witness": n == 3})
